@@ -81,7 +81,6 @@ NA = {
  'C08': "block layout, padding and varint widths are value dependent; no structural necessary condition found",
  'C22': "soundness of a rewrite over all programs is not a shape property; a guard-presence check would be a frozen fragment",
  'C24': "functional semantics of each collection function over all inputs; not a shape property",
- 'C27': "PBF value round trip and ordering depend on runtime values (the callback-error clause is decided under C28)",
  'C30': "shortest-path optimality is a numerical property of runtime values",
  'C33': "tile geometry encoding correctness is arithmetic over runtime values",
  'C34': "equivalence of two algorithms over all lines and tolerances needs execution or a solver, which is a different family",
